@@ -6,11 +6,11 @@ def run(rep, tier, seed):
     rep.assume("scripted workers write a checkpoint at every report; the in-memory store logs copy / delete / resume",
                "PBT's clone queue is read (never written) by the recorder: one Queue event per entry appended to "
                "_trial_decisions_stack inside on_trial_result")
-    T.model_check(rep, "C20", tier, names=None if tier == "thorough" else ["pause_2t", "wait_done", "exhaust", "crit_evals", "pbt_3t"])
+    T.model_check(rep, "C20", tier, names=None if tier == "thorough" else ["pause_2t", "wait_done", "exhaust", "crit_evals", "pbt_3t", "spec_removal"])
     # known finding F08 at model level: the PBT-type scheduler of the model stops a trial that is queued as clone source
     if T.model_finding_demo(rep, "C20", "R8", "CopySourceExists", base="pbt_3t"):
         rep.violation({"check": "mc-demo", "invariant": "CopySourceExists"}, {})
-    T.standard_campaign(rep, "C20", tier, seed, tables=["pause", "pause_nofail", "sync", "wait", "nw1", "pbt"], covers=["pbt3"])
+    T.standard_campaign(rep, "C20", tier, seed, tables=["pause", "pause_nofail", "sync", "wait", "nw1", "pbt", "specrm", "ask"], covers=["pbt3"])
     from harness.props import real_sched
     real_sched.campaign(rep, "C20", tier, seed, checkpoints=True)
     real_sched.campaign_one(rep, "C20", tier, seed, "pbt", n=24 if tier == "quick" else 400)
